@@ -831,9 +831,13 @@ def gen_squash_template(rng: random.Random):
             alt = ("rep", rng.choice([("id", "ASCII_DIGIT", None), ("range", "a", "b")]))
         alts = [a for a in alts if a != ("str", "")][:3] or [("str", "c")]
         alts.insert(rng.randrange(len(alts) + 1), alt)
+    if rng.random() < 0.2 and ("str", "") not in alts:
+        alts = [*alts, ("str", "")]          # an empty last alternative: the choice always matches, possibly nothing, possibly at offset 0
     ch = ("group", ("choice", alts), None)
     body = rng.choice([[ch, ("rep", ("id", "ANY", None))], [ch, ("id", "EOI", None)], [("rep", ch), ("id", "EOI", None)], [ch, ch],
                        [("rep", ch), ("str", "c")], [("rep1", ch), ("id", "EOI", None)]])
+    if ("str", "") in alts:
+        body = rng.choice([[ch, ("rep", ("id", "ANY", None))], [ch, ("id", "EOI", None)], [ch, ("str", "c")], [ch, ch, ("id", "EOI", None)]])
     rules = {"r": (rng.choice(["", "@", "", "!"]), ("seq", body)), **extra_rules}
     u = rng.random()
     if u < 0.3:
